@@ -53,8 +53,8 @@ func runC18(c *Ctx) {
 	styles := eng.ConstsOfType(lp, "style")
 	c.R.Count("R18:languages", len(langs))
 	c.R.Count("R18:styles", len(styles))
-	c.R.RequireMin("R18.1", "language constants", len(langs), 40)
-	c.R.RequireMin("R18.1", "style constants", len(styles), 10)
+	c.R.RequireMin("R18.1", "language constants", len(langs), 20)
+	c.R.RequireMin("R18.1", "style constants", len(styles), 5)
 
 	// R18.1 reachability of styles
 	image := map[string][]string{}
@@ -206,8 +206,8 @@ func runC18(c *Ctx) {
 	c.R.Count("R18.4:blocks of lex", lr.Blocks)
 	c.R.Count("R18.4:readRune calls", lr.Reads)
 	c.R.Count("R18.4:match-like calls", lr.MatchCalls)
-	c.R.RequireMin("R18.4", "readRune calls in lex", lr.Reads, 4)
-	c.R.RequireMin("R18.4", "match-like calls in lex", lr.MatchCalls, 5)
+	c.R.RequireMin("R18.4", "readRune calls in lex", lr.Reads, 2)
+	c.R.RequireMin("R18.4", "match-like calls in lex", lr.MatchCalls, 2)
 	for _, f := range lr.Findings {
 		c.R.Fail("R18.4", f.Key, p.Pos(f.Pos), f.Detail)
 	}
